@@ -79,6 +79,10 @@ func (vp *VoteProcessor[Source, Data]) groupVotes(aggregateVotes []types.Aggrega
 	groupedVotes := make(map[Source][]DataWithVoter[Data])
 	for _, vote := range aggregateVotes {
 		for _, vd := range vote.VoteData {
+			if vd.Topic != vp.topic {
+				continue
+			}
+
 			voter, err := sdk.ValAddressFromBech32(vote.Voter)
 			if err != nil {
 				continue
